@@ -101,7 +101,7 @@ def work(ctx, tier):
     world = env.World()
     draws = Draws(rng, ctx)
     world.draws = draws
-    n_iter = (60000 if tier == "quick" else 1500000) // ctx.nshards
+    n_iter = (240000 if tier == "quick" else 3000000) // ctx.nshards
 
     def viol(key, msg, case):
         ctx.viol(key, msg, {"case": case})
